@@ -18,6 +18,8 @@ def needs_space(a, b):
 
 def canonical_gaps(toks):
     """One blank between tokens, nothing around '::' (gap list has len(toks)+1 entries: before, between, after)."""
+    if not toks:
+        return [""]
     gaps = [""]
     for i in range(len(toks) - 1):
         a, b = toks[i], toks[i + 1]
@@ -37,6 +39,8 @@ def render(toks, gaps=None):
     for i, t in enumerate(toks):
         out.append(t)
         g = gaps[i + 1]
+        if g.startswith("/") and t.endswith("/"):
+            g = " " + g     # '/' followed by a comment opener would lex as '//' (maximal munch): keep them apart
         if i + 1 < len(toks) and g == "" and needs_space(t, toks[i + 1]):
             raise ValueError("layout would fuse %r and %r" % (t, toks[i + 1]))
         out.append(g)
@@ -66,6 +70,8 @@ def gap_tags(toks):
             tags[i + 1] = "std::pair"
         elif a == "operator":
             tags[i + 1] = "after-operator-keyword"
+        elif i >= 1 and toks[i - 1] == "=" and a != "{":
+            tags[i + 1] = "after-default-value"
     return tags
 
 
